@@ -244,6 +244,9 @@ func runC12(c *Ctx) {
 	c.Doc("R12.6", "no explicit panic and no unguarded constant-index access reachable from query.Parse")
 	checkCompileMatcher(c)
 	checkExcerptDataPath(c, "R12.9")
+	// the excerpt carries what the commit assigned (edit Lamport time: sort:edit) — every staging/committing method notifies (shared with C11)
+	c.Doc("R11.2", "every exported method of the cache entities that stages or commits operations calls notifyUpdated before it succeeds")
+	checkMutatorsNotify(c, "R11.2")
 	checkRepairQuery(c)
 	checkMatch(c)
 	checkLexerAutomaton(c)
